@@ -9,17 +9,19 @@
    Actions:
      Listen(c)        Proxyserver running with the servers of configuration c
      Open(d, p, tp)   a layer yields OpenConnection -> open_connection starts, address is (d.host, p)
-     ConnectHook      handle_hook(ServerConnectHook) -> Proxyserver.server_connect:
-                        for server in servers: for listen_host, listen_port in server.listen_addrs:
-                          connect_port == listen_port
-                          and connect_host in ("localhost", "127.0.0.1", "::1", listen_host)    (text comparison)
-                          and server.mode.transport_protocol == data.server.transport_protocol   ("both" never equals)
+     ConnectHook      handle_hook(ServerConnectHook) -> Proxyserver.server_connect (after commit 9a745e7b9):
+                        connect_ip = _parse_ip(connect_host)          (zone dropped, IPv4-mapped unwrapped)
+                        connect_is_local = localhost (any case, trailing dots) or connect_ip.is_loopback/is_unspecified
+                        for server in servers: skip unless mode transport in ("both", requested transport)
+                          for listen_host, listen_port in server.listen_addrs:
+                            connect_port == listen_port and (connect_is_local or connect_host == listen_host
+                                                             or connect_ip == _parse_ip(listen_host))
                         -> server.error = "Request destination unknown. ..."
      Refuse           open_connection: if connection.error: ServerConnectErrorHook, OpenConnectionCompleted(err)
      Connect          open_connection: asyncio.open_connection / open_udp_connection, then completion
      Finish
-   Guard \in {"text", "denotes"}: "text" is the code as it is; "denotes" is the guard the statement asks for (used to
-   see that the monitor accepts such a design and rejects the textual one).                              *)
+   Guard: "parsed" = the code as it is; "text" = the code before the fix (named deviation, kept so that TLC shows the
+   monitor rejects it); "denotes" = the weakest guard the statement asks for (TLC shows the monitor accepts it).   *)
 EXTENDS Mon_SelfConnect, TLC
 CONSTANTS Configs, Dests, Ports, Guard
 VARIABLES pc, socks, req, err, mon, obs
@@ -40,11 +42,21 @@ Open(d, p, tp) ==
   /\ UNCHANGED <<socks, err>>
   /\ Emit(<<[k |-> "open", dk |-> d.dk, port |-> p, tp |-> tp, ip |-> d.ip, host |-> d.host]>>)
 
+\* the guard before commit 9a745e7b9: text comparison; a mode serving both transports never matched
 TextGuard(s) == /\ req.port = s.port
                 /\ req.host \in {"localhost", "127.0.0.1", "::1", s.host}
                 /\ s.mt = req.tp
-SelfByCode == IF Guard = "text" THEN \E i \in 1..Len(socks) : TextGuard(socks[i])
-              ELSE \E i \in 1..Len(socks) : Denotes(req, socks[i])
+\* the guard as it is now: parsed addresses.  connect_is_local = "localhost" ignoring case / trailing dots, or an
+\* address that is_loopback or is_unspecified (IPv4-mapped forms unwrapped); a server is considered when its mode's
+\* transport is "both" or the requested one (= it owns a socket of that transport)
+LocalDest == req.dk \in LoopbackDest \cup WildcardDest
+ParsedGuard(s) == /\ req.port = s.port /\ s.tp = req.tp
+                  /\ \/ LocalDest
+                     \/ req.host = s.host
+                     \/ req.ip # 0 /\ req.ip = s.ip
+SelfByCode == CASE Guard = "text" -> \E i \in 1..Len(socks) : TextGuard(socks[i])
+                [] Guard = "parsed" -> \E i \in 1..Len(socks) : ParsedGuard(socks[i])
+                [] OTHER -> \E i \in 1..Len(socks) : Denotes(req, socks[i])
 
 ConnectHook ==
   /\ Live /\ pc = "hook" /\ pc' = "decided" /\ UNCHANGED <<socks, req>>
